@@ -115,8 +115,21 @@ def gen(rng, tier):
         pos = rng.sample(pos, 60)
     weights = None if rng.random() < 0.5 else [float(_f(dtype)(rng.choice([1.0, 0.5, 2.0, rng.random()]))) for _ in pos]
     from e1_threads.harness import gen_sched
+    wrap = rng.random() < 0.5
+    if wrap and rng.random() < 0.6:
+        # positions one period outside [0, box) (e.g. the Abacus-native [-box/2, box/2) convention): the documented
+        # wrap brings them back, and the stripes must be those of the wrapped coordinates
+        ft = _f(dtype)
+        lo = rng.random() < 0.5
+        for p in pos:
+            for ax in range(3):
+                if rng.random() < (0.4 if ax == coord else 0.15):
+                    if lo and p[ax] >= 0.5 * box:
+                        p[ax] = float(ft(p[ax] - box))
+                    elif not lo or rng.random() < 0.3:
+                        p[ax] = float(ft(p[ax] + (box if rng.random() < 0.8 or p[ax] < 0 else -box)))
     return {'shape': shape, 'box': box, 'dtype': dtype, 'nthread': nthread, 'npartition': npartition,
-            'coord': coord, 'sort': rng.random() < 0.3, 'offset': offset, 'wrap': rng.random() < 0.5,
+            'coord': coord, 'sort': rng.random() < 0.3, 'offset': offset, 'wrap': wrap,
             'pos': pos, 'weights': weights, 'sched': gen_sched(rng), 'poison': rng.choice(['A', 'B'])}
 
 
